@@ -6,7 +6,7 @@ followed by the columns of named PRIMARY KEY constraints; every primary-key colu
 non-nullable and no other column's nullability changes; a column is flagged unique when it is the
 single column of a UNIQUE clause; nothing else about a column changes."""
 from contracts.base import contract
-from contracts.lib import NAME, TYPE_TEXT, seq_filter, seq_flatmap, seq_map, without
+from contracts.lib import NAME, TYPE_TEXT, ghost_call, seq_filter, seq_flatmap, seq_map, without
 
 
 def col(G, name):
@@ -709,3 +709,26 @@ class TableLevelCheck:
 
     def ensures(case, old, new, result):
         return new[1][0] is new[1][1]
+
+
+@contract
+class TablePostInitSteps:
+    """every table object, of every output mode's class, is completed by the same four steps in this order: unique flags,
+    keys (+ NOT NULL), table-level FOREIGN KEY records onto their columns, then the mode's own post_process hook - the
+    common steps do not depend on what a mode's hook does or forgets to chain to"""
+    fn = "output.base_data.BaseData.__post_init__"
+    props = ["C02", "C10", "C01", "C12"]
+    abstract_callees = True
+    stub_calls = {"output.base_data.BaseData.set_unique_columns": ("unique-flags", []), "output.base_data.BaseData.populate_keys": ("keys", []),
+                  "output.base_data.BaseData.normalize_ref_columns_in_final_output": ("fk-records-to-columns", []),
+                  "output.base_data.BaseData.post_process": ("mode-hook", [])}
+    cases = {"any table": {}}
+
+    def build(G, case):
+        return dict(args=[G.obj("BaseData", columns=G.oseq("cols", elem=col), constraints={}, primary_key=[], unique=[], ref_columns=[])])
+
+    def spec(case, self_):
+        ghost_call("unique-flags")
+        ghost_call("keys")
+        ghost_call("fk-records-to-columns")
+        ghost_call("mode-hook")
